@@ -3,7 +3,7 @@ harness/src/bin/life.rs), encoder/decoder, log parser, generator building blocks
 
 A script is described by a dict
   {"mods": [mod, ..] (2..4), "inj": [(kind, m, time, payload)..]}
-  mod  = {"catch": 0|1, "stages": 1..3, "bud": B, "start": [prog..], "msg": [prog..], "tasks": [prog..], "end": prog}
+  mod  = {"catch": 0|1, "join": mask (bit id: task id is join()ed, else try_join()ed), "stages": 1..3, "bud": B, "start": [prog..], "msg": [prog..], "tasks": [prog..], "end": prog}
   prog = [act..];  act = ("log", x) | ("send", far, d, x) | ("sched", d, x) | ("sleep", d) | ("shutdown",)
                          | ("restart", d) | ("panic",) | ("quiet",) | ("setcatch", 0|1)
   inj kind: 0 handle_message_on(m) | 1 add_message_onto(m.out) | 2 add_message_onto(m.far)
@@ -56,7 +56,7 @@ def enc_progs(ps):
 
 
 def enc_mod(m):
-    return ([m.get("catch", 0), m.get("stages", 1) - 1, m.get("bud", 0)] + enc_progs(m.get("start", []))
+    return ([m.get("catch", 0) + 2 * m.get("join", 0), m.get("stages", 1) - 1, m.get("bud", 0)] + enc_progs(m.get("start", []))
             + enc_progs(m.get("msg", [])) + enc_progs(m.get("tasks", [])) + enc_prog(m.get("end", [])))
 
 
@@ -114,7 +114,8 @@ def dec_prog(v):
 
 
 def dec_mod(c):
-    m = {"catch": c.next() % 2, "stages": 1 + c.next() % 3, "bud": c.next()}
+    hdr = c.next()
+    m = {"catch": hdr % 2, "join": (hdr // 2) % 8, "stages": 1 + c.next() % 3, "bud": c.next()}
     m["start"] = [dec_prog(b) for b in c.blobs()]
     m["msg"] = [dec_prog(b) for b in c.blobs()]
     m["tasks"] = [dec_prog(b) for b in c.blobs()]
@@ -156,6 +157,8 @@ def join(hdr, ops):
 
 R_VAR = 18
 R_SETCATCH = 19
+R_TEND = 20       # (20, m, id, inc, how): task ended; how 0 completed | 1 panics now | 2 future dropped unfinished
+R_SPAWN = 21      # (21, m, id, inc, must): task spawned, handle given to join (must = 1) / try_join (0)
 
 
 def records3(out):
@@ -180,7 +183,7 @@ def records(out):
     return a, b
 
 
-NAMES = {19: "setcatch", 18: "|variant|", 1: "start", 2: "msg", 3: "task", 4: "timer", 5: "end", 6: "reset", 7: "log", 8: "send", 9: "sched", 10: "shut",
+NAMES = {20: "taskend", 21: "spawn", 19: "setcatch", 18: "|variant|", 1: "start", 2: "msg", 3: "task", 4: "timer", 5: "end", 6: "reset", 7: "log", 8: "send", 9: "sched", 10: "shut",
          11: "panic", 12: "quiet", 13: "cancel", 14: "ev", 15: "err", 16: "FUEL", 17: "||"}
 
 
@@ -193,7 +196,7 @@ def pretty(script):
     s = ""
     for i, m in enumerate(d["mods"]):
         s += "m%d{%sstages=%d bud=%d start=[%s] msg=[%s] tasks=[%s] end=[%s]} " % (
-            i, "catch " if m["catch"] else "", m["stages"], m["bud"], " | ".join(pretty_prog(p) for p in m["start"]),
+            i, ("catch " if m["catch"] else "") + ("join=%d " % m["join"] if m.get("join") else ""), m["stages"], m["bud"], " | ".join(pretty_prog(p) for p in m["start"]),
             " | ".join(pretty_prog(p) for p in m["msg"]), " | ".join(pretty_prog(p) for p in m["tasks"]), pretty_prog(m["end"]))
     s += "inject " + " ".join("%s%d@%d(%d)" % (["direct->m", "m.out:", "m.far:"][k], m, t, x) for k, m, t, x in d["inj"])
     return s
@@ -254,19 +257,19 @@ def gen_prog(rng, k_msgs, in_task, p_ctl, maxlen=4):
     return [gen_act(rng, k_msgs, in_task, p_ctl) for _ in range(rng.randint(0, maxlen))]
 
 
-def gen_mod(rng, p_ctl):
+def gen_mod(rng, p_ctl, joins=False):
     nm = rng.choice([1, 2, 3, 4])
-    return {"catch": rng.randint(0, 1), "stages": rng.choice([1, 1, 2, 3]), "bud": rng.choice([0, 2, 4, 6, 10]),
+    return {"catch": rng.randint(0, 1), "join": rng.choice([0, 1, 2, 3, 5, 7]) if joins else 0, "stages": rng.choice([1, 1, 2, 3]), "bud": rng.choice([0, 2, 4, 6, 10]),
             "start": [gen_prog(rng, nm, False, p_ctl / 2) for _ in range(rng.randint(0, 3))],
             "msg": [gen_prog(rng, nm, False, p_ctl) for _ in range(nm)],
             "tasks": [gen_prog(rng, nm, True, p_ctl, 5) for _ in range(rng.choice([0, 1, 1, 2, 3]))],
             "end": gen_prog(rng, nm, False, p_ctl / 2, 2)}
 
 
-def gen_random(rng):
+def gen_random(rng, joins=False):
     k = rng.choice([2, 2, 3, 4])
     p_ctl = rng.choice([0.2, 0.5, 0.8])
-    mods = [gen_mod(rng, p_ctl) for _ in range(k)]
+    mods = [gen_mod(rng, p_ctl, joins) for _ in range(k)]
     inj = [(rng.choice([0, 0, 1, 2]), rng.randrange(k), rng.choice(TIMES), rng.randint(0, 11)) for _ in range(rng.choice([0, 1, 2, 4, 6, 9]))]
     return encode({"mods": mods, "inj": inj})
 
